@@ -66,7 +66,7 @@ class dictattr(dict):
         if isinstance(key, tuple):
             branch = res
             for k in key[:-1]:
-                if k in branch:
+                if k in branch and isinstance(branch[k], dict): ## a path walks the nested mappings only: one that runs into a leaf is not there
                     branch[k] = _copy(branch[k]) ## res shares its nested branches with self: delete from a copy of the path
                     branch = branch[k]
                 else:
